@@ -103,6 +103,10 @@ func c14gen(r *rand.Rand) *c14case {
 		func() string { return n + "." },
 		func() string { return n },
 		func() string { return n + "x." + c14ts(r) },
+		func() string { return n + "-" + c14ts(r) },
+		func() string { return n + "_" + c14ts(r) },
+		func() string { return n + c14ts(r) },
+		func() string { return n + ".." + c14ts(r) },
 		func() string { return "x" + n + "." + c14ts(r) },
 		func() string { return n + "." + c14ts(r)[:7] + "a" + c14ts(r)[8:] },
 		func() string { return n + ".-" + c14ts(r)[1:] },
